@@ -204,13 +204,13 @@ def main(chk):
                                graph_phase="skipped: the shape table already shows violations"), assumptions=[])
     names = sorted(table)
     # 2. cache graphs of sampled groups of one-attribute neighbours
-    ngroups = 6 if chk.quick else 20
+    ngroups = 6 if chk.quick else 12
     depth = 5 if chk.quick else 6
     groups = pick_groups(names, rng, ngroups, size=3 if chk.quick else 4)
     selftest = faulty_selftest(chk, SELFTEST_GROUP, 3, ["none"], cap)
     plans = [(g_, 3, ["none"], ["cached"], depth) for g_ in groups]
     if not chk.quick:
-        plans += [(g_, 4, ["none"], ["cached"], depth) for g_ in pick_groups(names, rng, 3, size=3)]
+        plans += [(g_, 4, ["none"], ["cached"], depth) for g_ in pick_groups(names, rng, 2, size=3)]
     # one small graph in which bypassing the cache (compiled_cache=None) is an action of its own
     plans.append((sorted(groups[1])[:3], 2, ["none"], ["cached", "nocache"], depth))
     G, graphs, runs, walks, extra, plan, steps, mism = graph_phase(chk, plans, cap, vals, table, rng, 200 if chk.quick else 2000, depth)
